@@ -594,11 +594,79 @@ def float_monitors(chk, tier):
     reset_manager()
 
 
+def tensor_monitors(chk, tier):
+    """real relaxation tensors of a small aggregate (4-index Redfield, 5-index time-dependent Redfield) inside the eigenbasis of real
+    symmetric and complex Hermitian operators: the action of the tensor on a state computed inside the context (the result is an
+    operator created there, so it comes back to the site basis on exit) must equal the action computed outside; the tensor itself
+    must be restored."""
+    import io
+    import contextlib
+    import numpy as np
+    import quantarhei as qr
+    from quantarhei.qm.hilbertspace.operators import SelfAdjointOperator, Operator
+    r = cm.rng(PID + "tensors")
+    for k in range(4 if tier == "quick" else 40):
+        reset_manager()
+        rs = np.random.RandomState(r.randrange(2 ** 31))
+        N = int(rs.choice([2, 3]))
+        td = bool(k % 2)
+        kind = ["complex", "real"][(k // 2) % 2]
+        c = {"kind": "tensor:" + kind, "N": N, "td": td, "seed_case": k}
+        try:
+            with contextlib.redirect_stdout(io.StringIO()):
+                ta = qr.TimeAxis(0.0, 100, 2.0)
+                mols = []
+                with qr.energy_units("1/cm"):
+                    for i in range(N):
+                        m = qr.Molecule([0.0, 12000.0 + 120 * rs.randn()])
+                        m.set_transition_environment((0, 1), qr.CorrelationFunction(ta, dict(ftype="OverdampedBrownian", reorg=20.0 + 25 * rs.rand(),
+                                                                                             cortime=50.0 + 60 * rs.rand(), T=300.0)))
+                        mols.append(m)
+                    agg = qr.Aggregate(mols)
+                    for i in range(N):
+                        for j in range(i + 1, N):
+                            agg.set_resonance_coupling(i, j, float(rs.choice([30.0, 100.0]) * rs.randn()))
+                agg.build()
+                RT, _ham = agg.get_RelaxationTensor(ta, relaxation_theory="stR", time_dependent=td)
+            n = RT.dim
+            B = rs.randn(n, n) + (1j * rs.randn(n, n) if kind == "complex" else 0)
+            B = B + B.conj().T
+            bop = qr.ReducedDensityMatrix(data=B.copy()) if kind == "complex" else SelfAdjointOperator(data=B.copy())
+            rho = rs.randn(n, n) + 1j * rs.randn(n, n)
+            rho = rho.dot(rho.conj().T)
+            dm = qr.ReducedDensityMatrix(data=rho.copy())
+            d0 = np.array(RT.data)
+            times = [0, 1, d0.shape[0] // 2, d0.shape[0] - 1] if td else [None]
+            out = [np.tensordot(d0[t] if td else d0, rho) for t in times]
+            with qr.eigenbasis_of(bop):
+                din = np.array(RT.data)
+                rin = np.array(dm.data)
+                inner = [Operator(data=np.tensordot(din[t] if td else din, rin)) for t in times]
+            chk.case(("tensor", k, kind, td, N), True)
+            chk.count("tensor:%s:%s" % ("td" if td else "ti", kind))
+            sc = max(1e-30, float(max(np.max(np.abs(o)) for o in out)))
+            for t, o, inn in zip(times, out, inner):
+                dev = float(np.max(np.abs(np.array(inn.data) - o)))
+                if dev > 1e-9 * sc:
+                    chk.violation("float:tensor_action:%s:%s" % ("td" if td else "ti", kind), "%s: the action of the tensor on a state computed inside the "
+                                  "eigenbasis of a %s operator (time index %s) and read outside differs from the action computed outside by %g (scale %g)"
+                                  % (type(RT).__name__, "complex Hermitian" if kind == "complex" else "real symmetric", t, dev, sc), "monitor", c)
+                    break
+            dev = float(np.max(np.abs(np.array(RT.data) - d0)))
+            if dev > 1e-9 * max(1e-30, float(np.max(np.abs(d0)))):
+                chk.violation("float:not_restored:tensor:" + kind, "%s is not back in its original representation after the context: %g"
+                              % (type(RT).__name__, dev), "monitor", c)
+        except Exception as e:
+            chk.violation("float:exception:tensor:" + kind, "tensor monitor (%s, td=%s) raised %r" % (kind, td, e), "monitor", c)
+    reset_manager()
+
+
 def main():
     chk = cm.Check(PID, args.tier)
     chk.rule = ("random programs over Operator/ReducedDensityMatrix/SelfAdjointOperator/SuperOperator objects: create, read, write, "
                 "protect/unprotect, apply(copy), nested eigenbasis_of (<= 3 deep), raise at random points, try/except; exact integer data; "
-                "plus real-symmetric, degenerate and complex-Hermitian float cases. Non-trivial: contains a context and a read")
+                "plus real-symmetric, degenerate and complex-Hermitian float cases, and real Redfield / time-dependent Redfield tensors of small "
+                "aggregates acting on a state inside real-symmetric and complex-Hermitian contexts. Non-trivial: contains a context and a read")
     chk.assumptions = ["numpy.linalg.eigh of a signed-permutation-conjugated diagonal matrix returns an exact signed permutation matrix (checked on "
                        "every case; cases where it does not are skipped and counted)",
                        "eigh/inv are oracles: the model is handed the diagonaliser the implementation used",
@@ -632,6 +700,7 @@ def main():
                                     ["with", 0, [["read", 1]]], ["read", 1]]}]
         run(chk, corpus + [gen_case(r, k) for k in range(n)])
         float_monitors(chk, args.tier)
+        tensor_monitors(chk, args.tier)
     chk.finish()
 
 
